@@ -535,6 +535,7 @@ def main():
                 for k, (c, i, m) in enumerate(zip(cases, impl, model)):
                     if i not in m.split(" || ") and retried < 40:
                         retried += 1
+                        log(f"outlier: {c[:160]} -> {i[:200]}")
                         again = [run_cases([c], s.get("harness", which))[0][0] for _ in range(2)]
                         good = [a for a in again if a in m.split(" || ")]
                         if len(good) == 2:
